@@ -91,7 +91,7 @@ thread_local! {
 // Init / drop counters live in std thread-locals of the OS thread running the model.
 std::thread_local! {
     /// [T0 init, T0 drop, T1 init, T1 drop, Z0 init, Z0 drop, Z1 init, Z1 drop]
-    pub static STAT: [StdAtomicUsize; 8] = Default::default();
+    pub static STAT: [StdAtomicUsize; 10] = Default::default();
     /// cells the lazy initialisers write (set per iteration)
     static LZ_CELLS: RefCell<[Option<SArc<US<loom::cell::UnsafeCell<usize>>>>; 2]> = RefCell::new([None, None]);
 }
@@ -116,6 +116,14 @@ impl TlVal {
 impl Drop for TlVal {
     fn drop(&mut self) {
         stat_add(2 * self.k + 1);
+        if self.k == 1 && !std::thread::panicking() {
+            // the value is being destroyed with its thread: its key must report AccessError by now
+            // (STAT[8]: try_with still succeeded, STAT[9]: AccessError)
+            match TL1.try_with(|_| ()) {
+                Ok(()) => stat_add(8),
+                Err(_) => stat_add(9),
+            };
+        }
     }
 }
 pub struct LzVal {
